@@ -11,6 +11,8 @@ from concurrent.futures import ThreadPoolExecutor
 import vlib
 
 PROPS = "Properties_C03"
+NDEBUG_TOO = True     # the library's normal build compiles assertions out: the same histories run against that build too
+
 # leaf functions / constants of hash.c are re-translated from the C source on every run (tools/translate_leaf.py ->
 # coq/gen/Leaf.v, Constants.v) and re-proved equal to the model's (coq/Properties_leaf_hash.v)
 EXTRA_PROPS = ["Properties_leaf_hash"]
